@@ -151,6 +151,7 @@ struct hawk_sed_t
 			hawk_ooch_t buf[2048];
 			hawk_oow_t len;
 			int        eof;
+			int        nonl; /**< the line written last has no terminator */
 
 			/*****************************************************/
 			/* the following two fields are very tightly-coupled.
